@@ -4,7 +4,7 @@ import json, os, sys
 sys.path.insert(0, os.path.dirname(os.path.abspath(__file__)))
 import props
 
-HOOK_COMMITS = ["d05b882", "ad83700", "6e350c6"]
+HOOK_COMMITS = ["d05b882", "ad83700", "6e350c6", "3d38468"]
 NOTES = ("Every check is `./check Cxx`: regenerate translated tables from /repo, `lake build` the property's theorems, "
          "audit axioms, rebuild the harness against /repo's working tree, run implementation and Lean model on the same "
          "generated inputs, classify disagreements (impl-vs-spec = violation with replay; impl-vs-model or a broken proof "
